@@ -16,6 +16,7 @@ type MutexState struct {
 	outside bool
 }
 
+//go:noinline
 func (m *MutexState) Lock(site string) {
 	s := cur
 	if s == nil || s.running == nil {
@@ -33,6 +34,7 @@ func (m *MutexState) Lock(site string) {
 	m.real.Lock()
 }
 
+//go:noinline
 func (m *MutexState) Unlock(site string) {
 	s := cur
 	if s == nil || s.running == nil {
@@ -58,6 +60,8 @@ func (m *MutexState) Unlock(site string) {
 }
 
 // Owner returns the goroutine holding the lock (nil if free).
+//
+//go:noinline
 func (m *MutexState) Owner() *G { return m.owner }
 
 // WGState is the simulator's view of a shimmed WaitGroup.
@@ -66,6 +70,7 @@ type WGState struct {
 	real sync.WaitGroup
 }
 
+//go:noinline
 func (w *WGState) Add(site string, d int) {
 	w.n += d
 	if w.n < 0 {
@@ -74,6 +79,7 @@ func (w *WGState) Add(site string, d int) {
 	w.real.Add(d)
 }
 
+//go:noinline
 func (w *WGState) Wait(site string) {
 	s := cur
 	if s == nil || s.running == nil {
@@ -88,6 +94,8 @@ func (w *WGState) Wait(site string) {
 }
 
 // N returns the current counter.
+//
+//go:noinline
 func (w *WGState) N() int { return w.n }
 
 // OnceState is the simulator's view of a shimmed Once.
@@ -96,6 +104,7 @@ type OnceState struct {
 	m    MutexState
 }
 
+//go:noinline
 func (o *OnceState) Do(site string, f func()) {
 	if o.done {
 		return
